@@ -26,7 +26,8 @@ class CSVSearchRecorder(SearchRecorder):
         self.csv_writer = csv.writer(self.csv_file)
         self.header_printed = False
         self.only_record_best_individuals = only_record_best_individuals
-        self.configuration = (fields, extra_fields)
+        # copies: the caller's dicts may go on to configure other recorders before the header is written
+        self.configuration = (None if fields is None else dict(fields), None if extra_fields is None else dict(extra_fields))
         # the standard columns need the number of objectives, which a problem declared with minimize=<bool> only learns
         # from its first evaluation: the header is then written just before the first row
         if fields is not None or getattr(problem, "n_objectives", 1) is not None:
